@@ -3,9 +3,7 @@ package props
 import "fmt"
 
 func init() {
-	// Properties that static analysis cannot decide here (DESIGN.md §6).
-	NA["C28"] = "not applicable to static analysis: numeric property (cumulative floating-point rounding of timestamps over unbounded sample sequences, external rtp.Packetizer); no structural clause is a necessary condition of 'no drift'"
-	NA["C31"] = "not applicable to static analysis: behaviour of a reordering buffer over arbitrary runtime push histories (relational invariants over buffer contents, not over code shape)"
+	// No property is declined outright (DESIGN.md §6); C28 and C31 are claimed for their structural clauses only.
 	// Everything else starts as 'not built yet' and is removed from this list as its check is registered.
 	for i := 1; i <= 40; i++ {
 		id := fmt.Sprintf("C%02d", i)
